@@ -69,6 +69,9 @@ Qed.
 Lemma En_save_flat w ws k u : E (save_flat w ws k u) = E w /\ n (save_flat w ws k u) = n w.
 Proof. unfold save_flat. destruct (_ && _); split; reflexivity. Qed.
 
+Lemma En_save_node w ws par k u : E (save_node w ws par k u) = E w /\ n (save_node w ws par k u) = n w.
+Proof. destruct (save_node_facts w ws par k u) as [A [_ [B _]]]. split; assumption. Qed.
+
 Lemma chb_construct c w ws k cls par u ty props : chb w -> chb (fst (fst (construct c w ws k cls par u ty props))).
 Proof.
   intros C. unfold construct.
@@ -81,9 +84,9 @@ Proof.
   - set (w3 := upd (set_R w2 ws k d) (n w) (fun r => with_reg r props)).
     assert (C3 : chb w3).
     { apply chb_same_lists; [intros r; split; reflexivity|]. apply (chb_E w2); [simpl; lia | reflexivity | exact C2]. }
-    set (w4 := touch_metadata (save_flat w3 ws k u) ws k u).
+    set (w4 := touch_metadata (save_node w3 ws par k u) ws k u).
     assert (C4 : chb w4).
-    { destruct (En_touch (save_flat w3 ws k u) ws k u) as [A B]. destruct (En_save_flat w3 ws k u) as [A' B'].
+    { destruct (En_touch (save_node w3 ws par k u) ws k u) as [A B]. destruct (En_save_node w3 ws par k u) as [A' B'].
       apply (chb_E w3); [unfold w4; rewrite B, B'; lia | unfold w4; rewrite A, A'; reflexivity | exact C3]. }
     destruct (memb (n w) (ech (E w4 par))); [exact C4 | apply (chb_E w4); [simpl; lia | reflexivity | exact C4]].
   - assert (C2' : chb (if rollback c then upd w2 par (fun r => with_ch r (remove_one (n w) (ech r)) (remove_one (n w) (epgs r))) else w2)).
@@ -99,7 +102,7 @@ Proof.
   destruct (add_child_facts w1 par x) as [Hn2 _].
   destruct (insert_once _ _ u x) as [d|]; cbn [fst].
   - match goal with |- n (if ?b then ?a else kill ?a ?l) = _ => assert (Hk : n (if b then a else kill a l) = n a) by (destruct b; reflexivity) end.
-    rewrite Hk. rewrite (proj2 (En_touch _ ws k u)), (proj2 (En_save_flat _ ws k u)). simpl. congruence.
+    rewrite Hk. rewrite (proj2 (En_touch _ ws k u)), (proj2 (En_save_node _ ws par k u)). simpl. congruence.
   - match goal with |- n (if ?b then ?a else kill ?a ?l) = _ => assert (Hk : n (if b then a else kill a l) = n a) by (destruct b; reflexivity) end.
     rewrite Hk. destruct (rollback c); simpl; congruence.
 Qed.
@@ -184,6 +187,9 @@ Lemma chb_clear_children w o : chb w -> chb (clear_children w o).
 Proof.
   intros C. unfold clear_children. apply chb_fold; [|exact C]. intros w0 x C0.
   destruct (kind_eqb (ekind (E w0 x)) KPG); [apply chb_drop_child; exact C0|].
+  unfold drop_node_links, del_link.
+  match goal with |- chb (set_links ?w1 ?a ?l) => apply (chb_E w1); [simpl; lia | reflexivity|] end.
+  match goal with |- chb (set_links ?w1 ?a ?l) => apply (chb_E w1); [simpl; lia | reflexivity|] end.
   match goal with |- chb (set_flat ?w1 ?a ?l) => apply (chb_E w1); [simpl; lia | reflexivity|] end. apply chb_drop_child.
   unfold scrub_groups. apply chb_fold; [|exact C0]. intros w1 g C1. destruct (eprops (E w1 g)) as [|a l]; [exact C1|].
   assert (C2 : chb (upd w1 g (fun r => with_props r (filter (fun x0 => negb (Nat.eqb x0 (euid (E w0 x)))) (a :: l)))))
@@ -215,7 +221,9 @@ Proof.
       pose proof (chb_construct c w0 a KPG 4 obj uid 0 ps C0) as C2; destruct (construct c w0 a KPG 4 obj uid 0 ps) as [[w2 o] y] end. exact C2.
   - destruct (_ && _ && _ && _); [apply chb_do_copy; exact C | exact C].
   - match goal with |- context [if ?b then _ else _] => destruct b end; [|exact C]. cbn [fst].
-    apply chb_sweep.
+    apply chb_sweep. unfold drop_node_links, del_link.
+    match goal with |- chb (set_links ?w1 ?a ?l) => apply (chb_E w1); [simpl; lia | reflexivity|] end.
+    match goal with |- chb (set_links ?w1 ?a ?l) => apply (chb_E w1); [simpl; lia | reflexivity|] end.
     match goal with |- chb (set_flat ?w1 ?a ?l) => apply (chb_E w1); [simpl; lia | reflexivity|] end.
     apply chb_upd.
     + intros r y. simpl. intros [H|H]; left; [left; eapply In_remove_one; exact H | right; exact H].
@@ -280,7 +288,7 @@ Theorem refused_create_unchanged c h ws (isobj : bool) parent e0 :
   snd r = Refused /\ n (fst r) = S (n w) /\ alive (fst r) (n w) = false
   /\ (forall y, y < n w -> E (fst r) y = E w y)
   /\ (forall ws' k', R (fst r) ws' k' = R w ws' k')
-  /\ (forall ws', flat (fst r) ws' = flat w ws') /\ fresh (fst r) = fresh w
+  /\ (forall ws', flat (fst r) ws' = flat w ws' /\ links (fst r) ws' = links w ws') /\ fresh (fst r) = fresh w
   /\ (forall y, y < n w -> ekind (E w y) <> KType -> alive (fst r) y = alive w y).
 Proof.
   intros Hc w Ho Hws Hk Hcl Hus Hpw.
@@ -346,7 +354,7 @@ Proof.
     destruct (memb x (dead w)) eqn:Ed; [apply in_or_app; left; apply memb_In; exact Ed | apply in_or_app; right; simpl; rewrite Ed; left; reflexivity]. }
   split; [intros y Hy; change (E (kill w2' [x])) with (E w2'); apply HE; exact Hy|].
   split; [intros ws' k'; change (R (kill w2' [x])) with (R w2'); unfold w2'; rewrite Hw2; simpl; apply HR1|].
-  split; [intros ws'; change (flat (kill w2' [x]) ws') with (flat w2 ws'); rewrite Hw2; reflexivity|].
+  split; [intros ws'; change (flat (kill w2' [x]) ws') with (flat w2 ws'); change (links (kill w2' [x]) ws') with (links w2 ws'); rewrite Hw2; split; reflexivity|].
   split; [change (fresh (kill w2' [x])) with (fresh w2); rewrite Hw2; reflexivity|].
   intros y Hy Hyk. destruct (alive w y) eqn:Ea.
   - apply alive_kill_old.
